@@ -1,6 +1,7 @@
 package main
 
 import (
+	"context"
 	"fmt"
 	"os"
 	"path/filepath"
@@ -53,7 +54,9 @@ func (m *sqlModel) String() string {
 	return fmt.Sprintf("%s lease=%v", m.kvm.String(), m.lease)
 }
 
-func sqlDo(kv *sqlite3.SqliteKV, op string) error {
+func sqlDo(kv *sqlite3.SqliteKV, op string) error { return sqlDoCtx(ctx, kv, op) }
+
+func sqlDoCtx(ctx context.Context, kv *sqlite3.SqliteKV, op string) error {
 	switch op {
 	case "Pa1":
 		return kv.Put(ctx, []byte("a"), []byte("v1"))
@@ -302,9 +305,32 @@ func c23(c *report.Check) {
 	defer os.RemoveAll(scratchRoot)
 	hists := c23Histories(c.Thorough())
 	dist := report.NewDistinct(5)
-	results := runSharded(c, "C23", len(hists), func(i int) any { return c23Run(hists[i]) })
+	// second leg (indices past the histories): the caller's context is cancelled inside the last
+	// operation of every history of length <= 2 (thorough: all histories)
+	var chists [][]string
+	for _, h := range hists {
+		if len(h) <= 2 || c.Thorough() {
+			chists = append(chists, h)
+		}
+	}
+	results := runSharded(c, "C23", len(hists)+len(chists), func(i int) any {
+		if i < len(hists) {
+			return c23Run(hists[i])
+		}
+		r := c23CancelRun(chists[i-len(hists)])
+		return c20JSON{Hist: r.Hist, Recoveries: r.Cases, Rejected: r.Acked, Viol: r.Viol, FsKinds: "cancel-leg"}
+	})
 	images, recov := 0, 0
+	cancelCases, cancelAcked := 0, 0
 	for _, r := range results {
+		if r.FsKinds == "cancel-leg" {
+			cancelCases += r.Recoveries
+			cancelAcked += r.Rejected
+			for _, v := range r.Viol {
+				c.Violation("c23:"+v[0]+":"+strings.Join(r.Hist, ","), fmt.Sprintf("history %v: %s", r.Hist, v[1]), map[string]any{"history": r.Hist, "cancel": true})
+			}
+			continue
+		}
 		images += r.Images
 		recov += r.Recoveries
 		dist.See(fmt.Sprintf("len%d:rej%d:%s", len(r.Hist), r.Rejected, r.FsKinds), map[string]any{"history": r.Hist, "vfs_operations": r.FsOps, "kinds": r.FsKinds, "images": r.Images})
@@ -315,8 +341,11 @@ func c23(c *report.Check) {
 	c.Set("evaluations", recov)
 	c.Set("histories", len(results))
 	c.Set("crash_images", images)
+	c.Set("cancelled_context_cases", cancelCases)
+	c.Set("cancelled_context_cases_acknowledged", cancelAcked)
+	c.Set("histories_with_cancelled_context", len(chists))
 	c.Set("distinct_nontrivial", dist.N())
-	c.Set("rule", fmt.Sprintf("%d operation histories (all of length <= %d over %v, plus selected longer ones) through the real SqliteKV (WAL journal, synchronous=NORMAL as configured by the repository); through a version-pinned copy of the go-sqlite3 default VFS an image of the database and its write-ahead log (not the shared-memory index) is taken before every VFS write, truncate, sync, delete and file creation, and after the last operation without a clean close; every image is reopened with the real sqlite3.New: it must open, its simple values, prefix children and lease presence must equal the model state after the acknowledged prefix or after the in-flight operation, and ListKeys / RangeKeys must agree with the stored rows; class = (history length, rejected operations, kinds of VFS operations seen)", len(hists), map[bool]int{false: 2, true: 3}[c.Thorough()], c23Alphabet))
+	c.Set("rule", fmt.Sprintf("%d operation histories (all of length <= %d over %v, plus selected longer ones) through the real SqliteKV (WAL journal, synchronous=NORMAL as configured by the repository); through a version-pinned copy of the go-sqlite3 default VFS an image of the database and its write-ahead log (not the shared-memory index) is taken before every VFS write, truncate, sync, delete and file creation, and after the last operation without a clean close; every image is reopened with the real sqlite3.New: it must open, its simple values, prefix children and lease presence must equal the model state after the acknowledged prefix or after the in-flight operation, and ListKeys / RangeKeys must agree with the stored rows; class = (history length, rejected operations, kinds of VFS operations seen). Abandoned-caller leg: for the last operation of every history of length <= 2 (thorough: every history) the caller's context is cancelled at each call the store makes to its hash function while building the write transaction (one run per call index); an operation that is then acknowledged must be visible live and after close + reopen, a failed one may or may not have taken effect, listings stay consistent and the store stays usable", len(hists), map[bool]int{false: 2, true: 3}[c.Thorough()], c23Alphabet))
 	c.Set("samples", dist.Samples)
 	c.Set("exhaustive", true)
 	c.Assume("process-kill semantics: every completed VFS operation survives; power loss with synchronous=NORMAL is outside the statement", "SQLite itself (compiled to WebAssembly) and wazero are trusted to execute as the same code would natively")
@@ -331,10 +360,144 @@ func c23Replay(c *report.Check, raw []byte) {
 		c.Internal(err.Error())
 		return
 	}
+	if strings.Contains(string(raw), `"cancel"`) {
+		cr := c23CancelRun(r.History)
+		for _, v := range cr.Viol {
+			fmt.Printf("replay %v: %s: %s\n", r.History, v[0], v[1])
+			c.Violation("replay:"+v[0], v[1], nil)
+		}
+		return
+	}
 	res := c23Run(r.History)
 	for _, v := range res.Viol {
 		fmt.Printf("replay %v: %s: %s\n", r.History, v[0], v[1])
 		c.Violation("replay:"+v[0], v[1], nil)
 	}
 	fmt.Printf("replay %v: %d images\n", r.History, res.Images)
+}
+
+
+// ---- abandoned-caller leg: the caller's context is cancelled INSIDE an operation ----
+//
+// The store calls the configured hash function while it builds the write transaction; the
+// harness hash cancels the context of the designated operation at its k-th call, for every k
+// seen in a dry run. An operation that is then acknowledged must be there - live, and after a
+// close and reopen; one that fails may or may not have taken effect (it was issued), but the
+// store must stay consistent and usable.
+
+type c23CancelRes struct {
+	Hist  []string    `json:"hist"`
+	Cases int         `json:"cases"`
+	Acked int         `json:"acked"`
+	Viol  [][2]string `json:"viol"`
+}
+
+func c23CancelRun(hist []string) c23CancelRes {
+	hookMu.Lock()
+	defer hookMu.Unlock()
+	out := c23CancelRes{Hist: hist}
+	if err := sqliteInit(); err != nil {
+		out.Viol = append(out.Viol, [2]string{"setup", err.Error()})
+		return out
+	}
+	target := len(hist) - 1
+	// run(k): cancel the target operation's context at its k-th hash call (k = 0: never);
+	// returns the number of hash calls the target operation made
+	run := func(k int) (calls int, v *[2]string) {
+		dir := newScratch()
+		defer os.RemoveAll(dir)
+		var cancel context.CancelFunc
+		inTarget := false
+		hash := func(b []byte) uint64 {
+			if inTarget {
+				calls++
+				if calls == k && cancel != nil {
+					cancel()
+				}
+			}
+			return chord.Hash(b)
+		}
+		kv, err := sqlite3.New(sqlite3.Config{Logger: nop, HashFn: hash, DataDir: dir})
+		if err != nil {
+			return 0, &[2]string{"setup", err.Error()}
+		}
+		m := &sqlModel{kvm: newKVM()}
+		var before, after string
+		var opErr error
+		for i, op := range hist {
+			if i != target {
+				if err := sqlDo(kv, op); (err == nil) != m.apply(op) && op != "K" {
+					kv.Close()
+					return calls, &[2]string{"live-result:" + op, fmt.Sprintf("operation %d (%s) returned %v", i, op, err)}
+				}
+				continue
+			}
+			before = m.String()
+			octx, c := context.WithCancel(context.Background())
+			cancel = c
+			inTarget = true
+			opErr = sqlDoCtx(octx, kv, op)
+			inTarget = false
+			c()
+			accepted := m.apply(op)
+			after = m.String()
+			if !accepted {
+				after = before
+			}
+		}
+		where := fmt.Sprintf("context cancelled at hash call %d of operation %d (%s), which returned %v", k, target, hist[target], opErr)
+		allowed := map[string]bool{after: true}
+		if opErr != nil {
+			allowed[before] = true
+		} else {
+			out.Acked++
+		}
+		judge := func(kv *sqlite3.SqliteKV, when string) *[2]string {
+			st, inc := sqlSnapshot(kv)
+			if inc != "" {
+				return &[2]string{"cancel:listing-inconsistent:" + when, where + " (" + when + "): " + inc}
+			}
+			if !allowed[st] {
+				if opErr == nil {
+					return &[2]string{"cancel:acknowledged-but-missing:" + when, fmt.Sprintf("%s (%s): store shows {%s}, the acknowledged operation requires {%s}", where, when, st, after)}
+				}
+				return &[2]string{"cancel:wrong-state:" + when, fmt.Sprintf("%s (%s): store shows {%s}, neither {%s} nor {%s}", where, when, st, before, after)}
+			}
+			return nil
+		}
+		if v := judge(kv, "live"); v != nil {
+			kv.Close()
+			return calls, v
+		}
+		kv.Close()
+		kv2, err := sqlite3.New(sqlite3.Config{Logger: nop, HashFn: chord.Hash, DataDir: dir})
+		if err != nil {
+			return calls, &[2]string{"cancel:reopen-fails", where + ": reopening fails: " + err.Error()}
+		}
+		defer kv2.Close()
+		if v := judge(kv2, "after reopen"); v != nil {
+			return calls, v
+		}
+		// still usable
+		if err := kv2.Put(ctx, []byte("zz"), []byte("1")); err != nil {
+			return calls, &[2]string{"cancel:unusable-afterwards", where + ": a later Put fails: " + err.Error()}
+		}
+		return calls, nil
+	}
+	n, v := run(0)
+	out.Cases++
+	if v != nil {
+		out.Viol = append(out.Viol, *v)
+		return out
+	}
+	seen := map[string]bool{}
+	for k := 1; k <= n; k++ {
+		_, v := run(k)
+		out.Cases++
+		if v != nil && !seen[v[0]] {
+			seen[v[0]] = true
+			out.Viol = append(out.Viol, *v)
+		}
+	}
+	return out
 }
